@@ -79,9 +79,30 @@ def check_level(drv, n, o, fails, stats):
     if len(tris) != 4 ** n:
         fails.append(Failure(f'level {n}, {o}: the {4 ** n} indices cover only {len(tris)} distinct unit triangles', {'s': 0, 'n': n, 'o': o}))
 
+def check_batch(drv, n, o, q, fails):
+    """all cells of a segment are built first and only then examined (a caller that keeps the shapes):
+    every centre maps back to its own index and the 4^n cells are pairwise distinct"""
+    from a5.core.tiling import get_pentagon_vertices
+    from a5.core.coordinate_transforms import face_to_ij
+    try:
+        anchors = [drv.hb.s_to_anchor(s, n, o) for s in range(4 ** n)]
+        shapes = [get_pentagon_vertices(n, 0, a) for a in anchors]
+        centres = [sh.get_center() for sh in shapes]
+        backs = [drv.hb.ij_to_s(face_to_ij((c[0] * 2 ** n, c[1] * 2 ** n)), n, o) for c in centres]
+    except Exception as e:  # noqa
+        fails.append(Failure(f'building the {4 ** n} cells of level {n} ({o}) raises {type(e).__name__}', {'batch': True, 'n': n, 'o': o, 'q': q})); return
+    bad = [s for s, b in enumerate(backs) if b != s]
+    if bad:
+        fails.append(Failure(f'level {n}, orientation {o}: after building all {4 ** n} cells, the centre of the cell built for index {bad[0]} maps back to index {backs[bad[0]]} '
+                             f'({len(bad)} of {4 ** n} indices affected; {len(set((round(c[0], 12), round(c[1], 12)) for c in centres))} distinct centres)',
+                             {'batch': True, 'n': n, 'o': o, 'q': q}))
+
 def oracle(tier, rng, seeds):
     drv = common.py_driver()
     fails, stats, cnt = [], {}, 0
+    for n in range(1, 4 if tier == 'quick' else 6):
+        for o in gens.ORIENTS:
+            check_batch(drv, n, o, 0, fails); cnt += 4 ** n
     top = 4 if tier == 'quick' else 7
     for n in range(0, top + 1):
         for o in gens.ORIENTS:
@@ -130,10 +151,20 @@ def gen_ops(tier, rng):
                 centers.append((ij[0], ij[1], n))
             except Exception:
                 pass
-    return gens.hilbert_ops(tier, rng, centers)
+    ops = gens.hilbert_ops(tier, rng, centers)
+    # planar placement of the cell of an index (shape vertices and centre), consecutive indices so that a shape is still held while the next is built
+    for n in range(1, 29, 3):
+        for o in gens.ORIENTS[:3] if tier == 'quick' else gens.ORIENTS:
+            s0 = rng.randrange(4 ** n)
+            for s1 in range(s0, min(4 ** n, s0 + 3)):
+                ops.append(f'pent {n} {rng.randrange(5)} {s1} {o}')
+    return ops
 
 def replay(f):
     fails = []
     d = f['data']
+    if d.get('batch'):
+        check_batch(common.py_driver(), d['n'], d['o'], d['q'], fails)
+        return bool(fails)
     check_index(common.py_driver(), d['s'], d['n'], d['o'], fails, {})
     return bool(fails)
